@@ -60,6 +60,12 @@ Check(t) ==
          ELSE IF "plot_exc" \in DOMAIN pe /\ pe.plot_exc \notin {"", "none"} /\ Cardinality({i \in DOMAIN pe.pts : In(e, Q(pe.pts[i]))}) >= 8 THEN <<"plot-sampler-failed:" \o pe.plot_exc, "", Cardinality(J)>>
          ELSE IF "plot_exc" \in DOMAIN pe /\ pe.plot_exc = "" /\ ~pe.plot_cols_ok THEN <<"plot-sampler-other-variables", "", Cardinality(J)>>
          ELSE IF "plot" \in DOMAIN pe /\ \E i \in DOMAIN pe.plot : ~InTol(e, Q(pe.plot[i]), Tol) THEN <<"plot-sampler-point-outside", "", Cardinality(J)>>
+         \* the animation sampler: the free variable is the animation variable, the plot domain follows it frame by frame
+         \* (a failing / endless call is judged for expressions without cuts and intersections: those may be empty at some frame)
+         ELSE IF "anim_exc" \in DOMAIN pe /\ pe.anim_exc \notin {"", "none"} /\ ~HasNode(e, "cut") /\ ~HasNode(e, "and")
+                 /\ Cardinality({i \in DOMAIN pe.pts : In(e, Q(pe.pts[i]))}) >= 8
+              THEN <<"animation-sampler-failed:" \o pe.anim_exc, "", Cardinality(J)>>
+         ELSE IF "anim" \in DOMAIN pe /\ \E i \in DOMAIN pe.anim : ~InTol(e, Q(pe.anim[i]), Tol) THEN <<"animation-sampler-point-outside", "", Cardinality(J)>>
          \* (last: an acknowledged deviation) the volume the user set on D is the volume of D(**v)
          ELSE IF pe.uservol_pe_exc = "" /\ \E i \in DOMAIN pe.uservol_pe : pe.uservol_pe[i] # 5 * 1024 THEN <<"user-set-volume-lost-by-binding", "user_volume_lost_by_binding", Cardinality(J)>>
          ELSE IF pe.uservol_pe_exc \notin {"", "none"} THEN <<"user-set-volume-after-binding-failed", "", Cardinality(J)>>
